@@ -35,6 +35,7 @@ def main():
   ap.add_argument('--runs', type=int, default=0)
   ap.add_argument('--workers', type=int, default=16)
   ap.add_argument('--src', default='/repo')
+  ap.add_argument('--shrink', action='store_true')
   a = ap.parse_args()
   muts = load_mutants()
   if a.prop:
@@ -65,6 +66,8 @@ def main():
         runs = a.runs or m.get('runs', 0)
         if runs:
           cmd += ['--runs', str(runs)]
+        if not a.shrink:
+          cmd += ['--no-shrink']
         t0 = time.time()
         p = subprocess.run(cmd, capture_output=True, text=True)
         lines = [l for l in p.stdout.splitlines()
